@@ -288,6 +288,18 @@ def sigObs (ws : List String) : String :=
     (match kv ws "usr1" with | none => true | some v => v == "1")
   -- `usr1=1`: a harmless signal handled on the accept thread leaves the accept loop as it is (an interrupted poll is no event)
   let serves := if kv ws "usr1" == some "1" then " serves=1" else ""
+  -- `emfile=1 [storm=<ms>x<n>]`: a back-off after an accept error expires 500 ms after the error whatever wakes the poll
+  -- (`process_timeout` runs at every iteration of the accept loop; an interrupted poll is just another wake-up, C05): served
+  let emfile : Option Bool := match kv ws "emfile" with | none => some false | some "1" => some true | _ => none
+  let stormOk := match kv ws "storm" with
+    | none => true
+    | some t => match t.splitOn "x" with
+      | [a, b] => (match a.toNat?, b.toNat? with
+        | some ms, some n => emfile == some true && 10 ≤ ms && ms ≤ 1000 && 1 ≤ n && n ≤ 100 && a.length ≤ 9 && b.length ≤ 9
+        | _, _ => false)
+      | _ => false
+  if emfile.isNone || !stormOk then "bad-op" else
+  let serves := serves ++ (if emfile == some true then " served=1" else "")
   if !rtOk then "bad-op" else
   match sig, (kv ws "hold").bind parseHolds with
   | some sig, some [_] =>
